@@ -162,7 +162,7 @@ def run(rep, tier_, rng):
     for n in (0, 1, 5, 20, 100, 333):
         if mp.factorial(n, ) != math.factorial(n) and n < 15:
             rep.violation("factorial(%d) inexact although it fits" % n, {"fn": "factorial", "n": n})
-    res = zcert.run("C25", checks, defs=defs, shard=25)
+    res = zcert.run("C25", checks, defs=defs, shard=25, timeout=(900 if not big else 3000))
     for i in res["failing"]:
         rep.violation("%s: value returned by the implementation differs from the definition (Coq vm_compute)" % meta[i].get("fn"),
                       dict(meta[i], check_id=i))
